@@ -660,7 +660,8 @@ pub fn run_run(cfg: &Cfg) -> Report {
         let mut g = SplitMix::derive(seed, idx);
         let fl = floats();
         let plain = inv.plain();
-        let lim = |g: &mut SplitMix| -> usize { match g.below(8) { 0 => 0, 1 => 1, 2 => 1000, 3 => usize::MAX, _ => g.below(9) as usize } };
+        // limits: tiny, roomy, unlimited, and huge-but-finite ones (a stack must not try to reserve its whole capacity)
+        let lim = |g: &mut SplitMix| -> usize { match g.below(9) { 0 => 0, 1 => 1, 2 => 1000, 3 => usize::MAX, 4 => *g.pick(&[usize::MAX - 1, usize::MAX / 2, 1usize << 62, (1usize << 60) + 1]), _ => g.below(9) as usize } };
         let (em, im, fm, bm) = (match g.below(6) { 0 => g.below(4) as usize, 1 => usize::MAX, _ => 4 + g.below(60) as usize }, lim(&mut g), lim(&mut g), lim(&mut g));
         let steps = match g.below(10) { 0 => 0, 1 => 1, 2 => 500 + g.below(1500) as usize, _ => g.below(65) as usize };
         let mut gen = Gen { g: &mut g, inv: &inv, fl: fl.clone(), plain };
